@@ -202,16 +202,17 @@ def build_agent(spec, shared_cfg=None):
     if algo == "RainbowDQN":
         kw.update(num_atoms=5, v_min=-2.0, v_max=2.0)
     if algo in MULTI:
-        osp = [obs_space(family) for _ in AGENT_IDS]
-        asp = [act_space(algo) for _ in AGENT_IDS]
-        return cls(osp, asp, agent_ids=list(AGENT_IDS), **kw)
+        ids = list(reversed(AGENT_IDS)) if spec.get("ids") == "rev" else list(AGENT_IDS)   # caller-chosen (unsorted) order
+        osp = [obs_space(family) for _ in ids]
+        asp = [act_space(algo) for _ in ids]
+        return cls(osp, asp, agent_ids=ids, **kw)
     return cls(obs_space(family), act_space(algo), **kw)
 
 
 # net_config kind "custom": plain torch networks wrapped by MakeEvolvable and passed as actor_network= / critic_network=
 # (agilerl/wrappers/make_evolvable.py keeps its constructor kwargs -- hidden_size, channel_size, layer-info dicts -- as
 # attributes and hands them out again through init_dict)
-CUSTOM_ALGOS = {"DQN": ("vector", "image"), "CQN": ("vector", "image"), "DDPG": ("vector",), "NeuralUCB": ("vector",)}
+CUSTOM_ALGOS = {"DQN": ("vector", "image"), "CQN": ("vector", "image"), "NeuralUCB": ("vector",)}
 
 
 def custom_networks(algo, family):
@@ -220,7 +221,7 @@ def custom_networks(algo, family):
     assert family in CUSTOM_ALGOS.get(algo, ()), f"no custom-network configuration for {algo}/{family}"
     lim = dict(min_hidden_layers=1, max_hidden_layers=3, min_mlp_nodes=4, max_mlp_nodes=64,
                min_cnn_hidden_layers=1, max_cnn_hidden_layers=3, min_channel_size=2, max_channel_size=16)
-    nout = 2 if algo == "DDPG" else (1 if algo == "NeuralUCB" else 3)
+    nout = 2 if algo == "DDPG" else (1 if algo in BANDIT else 3)
     if family == "image":
         net = nn.Sequential(nn.Conv2d(1, 4, kernel_size=3, stride=1), nn.ReLU(), nn.Flatten(),
                             nn.Linear(4 * 4 * 4, 8), nn.ReLU(), nn.Linear(8, nout))
@@ -231,8 +232,14 @@ def custom_networks(algo, family):
         actor = MakeEvolvable(net, torch.zeros(1, 3), **lim)
     out = {"actor_network": actor}
     if algo == "DDPG":
-        cnet = nn.Sequential(nn.Linear(3 + 2, 8), nn.ReLU(), nn.Linear(8, 1))
-        out["critic_network"] = MakeEvolvable(cnet, torch.zeros(1, 3), secondary_input_tensor=torch.zeros(1, 2), **lim)
+        class _Critic(nn.Module):
+            def __init__(self):
+                super().__init__()
+                self.l1, self.a1, self.l2 = nn.Linear(3 + 2, 8), nn.ReLU(), nn.Linear(8, 1)
+
+            def forward(self, x, a):
+                return self.l2(self.a1(self.l1(torch.cat([x, a], dim=1))))
+        out["critic_network"] = MakeEvolvable(_Critic(), torch.zeros(1, 3), secondary_input_tensor=torch.zeros(1, 2), **lim)
     return out
 
 
